@@ -27,8 +27,16 @@ Fixpoint mon_run (W : nat) (sc : list (stim * obs)) (enq : nat) (started : list 
   match sc with
   | [] => true
   | (st, o) :: rest =>
-      let enq' := match st with SEnq _ _ _ => S enq | _ => enq end in
-      let fin' := match st with SFinish _ _ => S fin | _ => fin end in
+      let enq' := match st with
+                  | SEnq _ _ _ => S enq
+                  | SBatch subs => enq + length (filter (fun x => match x with SEnq _ _ _ => true | _ => false end) subs)
+                  | _ => enq
+                  end in
+      let fin' := match st with
+                  | SFinish _ _ => S fin
+                  | SBatch subs => fin + length (filter (fun x => match x with SFinish _ _ => true | _ => false end) subs)
+                  | _ => fin
+                  end in
       let deq' := match st with
                   | SDequeue i =>
                       if (o_res o =? 0)%Z && (0 <=? i)%Z && (i <? Z.of_nat enq)%Z
